@@ -45,20 +45,59 @@ fn cli_path() -> PathBuf {
     std::env::current_exe().expect("current_exe").parent().expect("parent").join("conserve-cli")
 }
 
-/// Run the command-line tool with these arguments (plus `-P`: no progress bars).
+/// Run the command-line tool with these arguments (plus `-P`: no progress bars). A process that
+/// has not finished after the limit is killed and counts as a failed operation (exit -2).
 pub fn cli(args: &[&str]) -> CliOut {
+    use std::io::Read;
+    use std::process::Stdio;
     RUNS.fetch_add(1, Ordering::Relaxed);
-    let out = Command::new(cli_path()).arg("-P").args(args).env("RUST_BACKTRACE", "0").output();
-    match out {
-        Ok(o) => CliOut {
-            code: o.status.code().unwrap_or(-1),
-            stdout: String::from_utf8_lossy(&o.stdout).into_owned(),
-            stderr: String::from_utf8_lossy(&o.stderr).into_owned(),
-        },
+    let spawned = Command::new(cli_path())
+        .arg("-P")
+        .args(args)
+        .env("RUST_BACKTRACE", "0")
+        .stdin(Stdio::null())
+        .stdout(Stdio::piped())
+        .stderr(Stdio::piped())
+        .spawn();
+    let mut child = match spawned {
+        Ok(c) => c,
         Err(e) => {
             eprintln!("vh: cannot run {}: {e} (machinery error)", cli_path().display());
             std::process::exit(3);
         }
+    };
+    // read both pipes on helper threads so that a chatty process cannot block on a full pipe
+    let mut so = child.stdout.take().unwrap();
+    let mut se = child.stderr.take().unwrap();
+    let t1 = std::thread::spawn(move || {
+        let mut b = Vec::new();
+        let _ = so.read_to_end(&mut b);
+        b
+    });
+    let t2 = std::thread::spawn(move || {
+        let mut b = Vec::new();
+        let _ = se.read_to_end(&mut b);
+        b
+    });
+    let start = std::time::Instant::now();
+    let code = loop {
+        match child.try_wait() {
+            Ok(Some(st)) => break st.code().unwrap_or(-1),
+            Ok(None) => {
+                if start.elapsed().as_secs() > 120 {
+                    let _ = child.kill();
+                    let _ = child.wait();
+                    break -2;
+                }
+                std::thread::sleep(std::time::Duration::from_millis(2));
+            }
+            Err(_) => break -1,
+        }
+    };
+    CliOut {
+        code,
+        stdout: String::from_utf8_lossy(&t1.join().unwrap_or_default()).into_owned(),
+        stderr: String::from_utf8_lossy(&t2.join().unwrap_or_default()).into_owned(),
     }
 }
 
@@ -227,6 +266,121 @@ pub fn c05(scratch: &Scratch) -> Vec<(Violation, Value)> {
     out
 }
 
+/// Run the tool under a file-size limit of `kib` KiB with SIGXFSZ ignored, so that a write that
+/// would grow a file beyond the limit fails part way with a real EFBIG from the operating system
+/// (below the transport seam where the other fault sweeps inject their errors).
+pub fn cli_limited(kib: u64, args: &[&str]) -> CliOut {
+    let quoted: Vec<String> = std::iter::once(s(&cli_path()).to_string())
+        .chain(std::iter::once("-P".to_string()))
+        .chain(args.iter().map(|a| a.to_string()))
+        .map(|a| format!("'{}'", a.replace('\'', "'\\''")))
+        .collect();
+    let script = format!("trap '' XFSZ; ulimit -f {kib}; exec {}", quoted.join(" "));
+    RUNS.fetch_add(1, Ordering::Relaxed);
+    match Command::new("bash").arg("-c").arg(&script).env("RUST_BACKTRACE", "0").output() {
+        Ok(o) => CliOut {
+            code: o.status.code().unwrap_or(-1),
+            stdout: String::from_utf8_lossy(&o.stdout).into_owned(),
+            stderr: String::from_utf8_lossy(&o.stderr).into_owned(),
+        },
+        Err(e) => {
+            eprintln!("vh: cannot run bash: {e} (machinery error)");
+            std::process::exit(3);
+        }
+    }
+}
+
+/// C04 with real write failures: a backup during which every write beyond a size limit fails part
+/// way (the file exists and holds the first bytes when the error comes back). Whatever that
+/// backup recorded must match the source, earlier versions are untouched, it must not claim
+/// success, and a later backup without the limit must complete and restore exactly - also when
+/// the failing write was completing the zero-length leftover of an earlier killed write.
+pub fn c04(scratch: &Scratch) -> Vec<(Violation, Value)> {
+    let mut out = Vec::new();
+    let t0 = common::tree_t1();
+    let mut t = common::tree_t1();
+    t.insert("m".into(), Node::file(&common::incompressible(300_000, 7), T0 + 950));
+    t.insert("n".into(), Node::file(&common::incompressible(70_000, 8), T0 + 951));
+    t.insert("zsmall".into(), Node::file(b"after the big ones", T0 + 952));
+    // where the blocks of the new files will go (from a reference backup into another archive)
+    let reference = new_archive(scratch, "ref");
+    let (b, _) = backup(&reference, &t0, scratch, &[]);
+    assert!(b.ok(), "reference backup failed: {}", b.brief());
+    let ref0 = Snap::load(&reference);
+    let (b, _) = backup(&reference, &t, scratch, &[]);
+    assert!(b.ok(), "reference backup failed: {}", b.brief());
+    let ref_snap = Snap::load(&reference);
+    let big_blocks: Vec<String> = ref_snap
+        .block_files()
+        .into_iter()
+        .filter(|(_, p)| !ref0.files.contains_key(p) && ref_snap.files[p].len() > 65_536)
+        .map(|(_, p)| p)
+        .collect();
+    assert!(!big_blocks.is_empty(), "the second reference backup wrote no block above 64 KiB");
+    for limit in [0u64, 1, 64] {
+        for leftover in [false, true] {
+            if leftover && (limit != 64 || big_blocks.is_empty()) {
+                continue;
+            }
+            let arch = new_archive(scratch, "a");
+            let (b0, _) = backup(&arch, &t0, scratch, &[]);
+            assert!(b0.ok(), "first backup failed: {}", b0.brief());
+            if leftover {
+                for p in &big_blocks {
+                    std::fs::create_dir_all(arch.join(p).parent().unwrap()).unwrap();
+                    std::fs::write(arch.join(p), b"").unwrap();
+                }
+            }
+            let before = Snap::load(&arch);
+            let src = scratch.fresh("clisrc");
+            tree::materialize(&t, &src);
+            let lb = cli_limited(limit, &["backup", "--no-stats", s(&arch), s(&src)]);
+            let after = Snap::load(&arch);
+            let at = format!("backup with every write beyond {limit} KiB failing part way{}: {}", if leftover { ", completing zero-length leftovers of the big blocks" } else { "" }, lb.brief());
+            if lb.ok() {
+                vio(&mut out, "C04", "success-claimed-although-writes-failed", at.clone());
+            }
+            for (f, bytes) in &before.files {
+                if !bytes.is_empty() && after.files.get(f) != Some(bytes) {
+                    vio(&mut out, "C04", "earlier-file-changed", format!("{at}: {f}"));
+                    break;
+                }
+            }
+            for b in after.band_ids() {
+                let src_tree = if b == 0 { &t0 } else { &t };
+                for e in after.band_entries(b) {
+                    if let Some(n) = common::node_for(src_tree, &e.apath) {
+                        if let Err(why) = common::entry_matches_node(&after, &e, n) {
+                            vio(&mut out, "C04", "wrong-content-or-dangling-reference-recorded", format!("{at}: b{b:04} {}: {why}", e.apath));
+                        }
+                    }
+                }
+            }
+            // and afterwards, with the limit gone
+            let fb = cli(&["backup", "--no-stats", s(&arch), s(&src)]);
+            let after2 = Snap::load(&arch);
+            // (its exit status may tell of debris the failed run left, such as a version directory
+            // without a head; what counts is a new complete version that restores exactly)
+            let newest = after2.band_ids().into_iter().max().unwrap_or(0);
+            let is_new = !after.band_ids().contains(&newest) || !after.has_tail_file(newest);
+            if !is_new || !after2.has_tail_file(newest) {
+                vio(&mut out, "C04", "later-backup-fails", format!("{at}; later backup without the limit made no new complete version: {}", fb.brief()));
+            } else {
+                let diffs = common::restore_exact(&arch, newest, &t, scratch, Cmp::FULL);
+                if !diffs.is_empty() {
+                    vio(&mut out, "C04", "later-backup-does-not-restore", format!("{at}; later backup without the limit ({}) made b{newest:04}, which does not restore: {diffs:?}", fb.brief()));
+                }
+            }
+            let diffs = common::restore_exact(&arch, 0, &t0, scratch, Cmp::FULL);
+            if !diffs.is_empty() {
+                vio(&mut out, "C04", "earlier-version-no-longer-restores", format!("{at}: b0000: {diffs:?}"));
+            }
+            let _ = std::fs::remove_dir_all(&arch);
+        }
+    }
+    out
+}
+
 /// C09: `validate` is silent (exit 0) on healthy archives and fails on damage.
 pub fn c09(scratch: &Scratch) -> Vec<(Violation, Value)> {
     let mut out = Vec::new();
@@ -298,12 +452,15 @@ pub fn c09(scratch: &Scratch) -> Vec<(Violation, Value)> {
 pub fn c12(scratch: &Scratch) -> Vec<(Violation, Value)> {
     let mut out = Vec::new();
     let mut t = empty_tree();
-    for (i, d) in ["a", "ab", "a.b", "é", "éx"].iter().enumerate() {
+    // (names with leading dots, dashes and spaces: whatever the argument parser might "tidy")
+    for (i, d) in ["a", "ab", "a.b", "é", "éx", ".a", "..b", "-a", " a", "a "].iter().enumerate() {
         t.insert(d.to_string(), Node::dir(T0 + 700 + i as i64).with_mode(0o750));
         t.insert(format!("{d}/f"), Node::file(format!("in {d}").as_bytes(), T0 + 710 + i as i64));
         t.insert(format!("{d}/sub"), Node::dir(T0 + 720 + i as i64));
         t.insert(format!("{d}/sub/g"), Node::file(b"deep", T0 + 730 + i as i64));
     }
+    t.insert("a/.a".into(), Node::dir(T0 + 742));
+    t.insert("a/.a/inner".into(), Node::file(b"i", T0 + 743));
     t.insert("a/é".into(), Node::dir(T0 + 740));
     t.insert("a/é/h".into(), Node::file(b"h", T0 + 741));
     let arch = new_archive(scratch, "a");
@@ -316,7 +473,8 @@ pub fn c12(scratch: &Scratch) -> Vec<(Violation, Value)> {
     for k in dirs {
         let sub = tree::apath_of(&k);
         let dest = scratch.fresh("dest");
-        let r = cli(&["restore", "--no-stats", "--only", &sub, s(&arch), s(&dest)]);
+        let only = format!("--only={sub}");
+        let r = cli(&["restore", "--no-stats", &only, s(&arch), s(&dest)]);
         let got = tree::observe(&dest).unwrap_or_default();
         let under = |p: &str| p == k || p.starts_with(&format!("{k}/"));
         let expect: Tree = t.iter().filter(|(p, _)| under(p)).map(|(p, n)| (p.clone(), n.clone())).collect();
